@@ -16,7 +16,9 @@ type Val struct {
 	T      string     // materialised SMT term ("" for exploded structs / engine pointers / tuples)
 	Fields []*Val     // exploded struct value
 	P      *Ptr       // engine-level pointer
+	NilIf  string     // for engine-level pointers that may be nil: the condition under which they are
 	Tup    []*Val     // tuple (multi-result call)
+	Box    *Val       // for interface values made from a tracked value: the boxed value (reachability)
 }
 
 const (
@@ -75,20 +77,25 @@ type AllocInfo struct {
 	Ty     types.Type // pointee type
 	Instr  *ssa.Alloc
 	Name   string
-	Leaked bool // address was turned into a term (passed to a call, stored, merged)
 	Weak   bool // contents no longer tracked (reads give arbitrary values)
+	Aliased bool // a pointer to it was stored somewhere or handed to a callee
+	MergedInto int // id+1 of the merge object that replaced it at a control-flow join (0: none)
 	Published bool // array published to the element heap via a Slice instruction
 }
 
 type State struct {
-	reach string
-	cells map[int]*Val
-	heap  map[string]string
-	epoch int
+	reach  string
+	cells  map[int]*Val
+	heap   map[string]string
+	epoch  int
+	leaked map[int]bool // locals whose address escaped on the paths leading here
 }
 
 func (s *State) clone() *State {
-	n := &State{reach: s.reach, epoch: s.epoch, cells: make(map[int]*Val, len(s.cells)), heap: make(map[string]string, len(s.heap))}
+	n := &State{reach: s.reach, epoch: s.epoch, cells: make(map[int]*Val, len(s.cells)), heap: make(map[string]string, len(s.heap)), leaked: make(map[int]bool, len(s.leaked))}
+	for k := range s.leaked {
+		n.leaked[k] = true
+	}
 	for k, v := range s.cells {
 		n.cells[k] = v
 	}
@@ -108,7 +115,7 @@ func sameVal(a, b *Val) bool {
 	if a.T != "" && a.T == b.T {
 		return true
 	}
-	if a.P != nil && b.P != nil && a.P.key() == b.P.key() {
+	if a.P != nil && b.P != nil && a.P.key() == b.P.key() && a.NilIf == b.NilIf {
 		return true
 	}
 	if a.Fields != nil && b.Fields != nil && len(a.Fields) == len(b.Fields) {
